@@ -10,7 +10,7 @@ VALIDATION_CASES = {'quick': 60, 'thorough': 200}
 TIME_BUDGET = {'quick': 900, 'thorough': 3300}
 OPTS = {'quick': {'hash_order': 'insertion', 'step_budget': 3000000}, 'thorough': {'hash_order': 'insertion', 'step_budget': 6000000}}
 BOUNDS = {
-    'quick': 'corpora of 1-2 files with 0-3 lines in total, 1-2 words per line, words of 1-2 symbolic letters over {a, b}; '
+    'quick': 'corpora of 1-2 files with 0-3 lines in total (blank lines included), 0-2 words per line, words of 1-2 symbolic letters over {a, b}; '
              'max_size in {None, 0, 1, 2, 5}, max_sequences in {None, 1, 2}, word mode and character mode (1-grams, 3-grams), '
              'num_threads in {0, 2} (worker threads sequentialised, the order in which their results reach the reducer is '
              'arbitrary for corpora of <= 2 lines); save -> load; get_closest for a symbolic query of 1-2 letters',
@@ -32,6 +32,11 @@ def shapes(tier):
     layouts = [[], [[1]], [[2]], [[1], [1]], [[2], [1]], [[1], [2]], [[1], [1], [1]], [[2], [2]]]
     if tier != 'quick':
         layouts += [[[2], [1], [2]], [[3], [1]], [[1], [1], [1], [1]]]
+    blank = [[[0]], [[0], [1]], [[1], [0], [1]], [[2], [0]], [[0], [0], [1]]]   # blank lines count nothing and end nothing
+    for lay in blank:
+        for th in (0, 2):
+            for mode in ('word', 'char1'):
+                out.append({'layout': lay, 'max_size': None, 'max_seq': None, 'mode': mode, 'threads': th, 'split_files': False})
     for lay in layouts:
         for ms in MAXSIZES:
             for mq in MAXSEQ:
